@@ -1,16 +1,13 @@
-SPECIFICATION GSpec
+SPECIFICATION FairSpec
 CONSTANTS
   Tasks = {1, 2}
-  Queries = {1, 2, 3, 4, 5, 6}
-  Deps <- DepsD
-  Roots <- RootsD
+  Queries = {1, 2, 3, 4}
+  Deps <- DepsR2
+  Roots <- RootsR2b
   SubscribeLate = FALSE
   MaxAbandon = 0
   SilentAbandon = FALSE
   RegisterLate = FALSE
   MarkCallerOnly = FALSE
-INVARIANT Emit
-INVARIANT SingleFlight
-INVARIANT OncePerEpoch
-VIEW View
+PROPERTY Progress
 CHECK_DEADLOCK FALSE
